@@ -76,7 +76,7 @@ func main() {
 		errorAndExit(err)
 	}
 	if *gitDiffDriver {
-		err := printGitDiffDriver(options)
+		err := printGitDiffDriver(metadata, options)
 		if err != nil {
 			errorAndExit(err)
 		}
@@ -298,13 +298,22 @@ func printDiffV2(a, b string, options []v2.Option) {
 	os.Exit(0)
 }
 
-func printGitDiffDriver(options []v2.Option) error {
+func printGitDiffDriver(metadata []jd.Metadata, options []v2.Option) error {
 	if len(flag.Args()) != 7 {
 		return fmt.Errorf("Git diff driver expects exactly 7 arguments.")
 	}
 	a := readFile(flag.Arg(1))
 	b := readFile(flag.Arg(4))
-	str, _, err := diffV2(a, b, options)
+	var (
+		str string
+		err error
+	)
+	if *libv2 {
+		str, _, err = diffV2(a, b, options)
+	} else {
+		// -v2=false: the options were parsed into v1 metadata
+		str, _, err = diff(a, b, metadata)
+	}
 	if err != nil {
 		return err
 	}
